@@ -867,6 +867,61 @@ pub fn c14(ctx: &Ctx, st: &mut Stats) {
     for _ in 0..n {
         let p = if r.chance(2, 3) { grammar::gen_stmt_for_deletion(&mut r, ctx.tier.gcfg()) } else { grammar::gen_program(&mut r, ctx.tier.gcfg()) };
         c14_prog(st, &p, &mut r);
+        c14_truncations(st, &p.s, &mut r);
+    }
+    // the end-of-input row holds for any source: whatever is still expected when the input ends
+    // is discharged by its recovery token
+    let m = ctx.draws(30_000, 600_000);
+    for _ in 0..m {
+        let (s, src) = gen::general(&mut r, ctx.corpus, ctx.tier);
+        st.src(src);
+        c14_eoi_case(st, &s);
+        if r.chance(1, 3) {
+            c14_truncations(st, &s, &mut r);
+        }
+    }
+}
+
+fn c14_eoi_case(st: &mut Stats, src: &str) {
+    st.cases += 1;
+    let ex = exec(src);
+    st.observe_exec(&ex);
+    let Some(res) = ex.result() else { return };
+    let v = View::new(src, res);
+    let fs = wellformed::check_eoi_recovery(&v, &ex);
+    record(st, &fs, &[src]);
+    if let Some(e) = &ex.report.end_of_input {
+        let owing = e.modes.iter().filter(|m| m.starts_with("Expect") || m.starts_with("StringExpr") || m.contains("pnl: ") && !m.contains("pnl: 0")).count();
+        if owing > 0 {
+            st.count("eoi_cases_with_pending_expectations", 1);
+            st.count(&format!("eoi_pending_{}", owing.min(6)), 1);
+        }
+        if owing >= 2 {
+            st.nontrivial(src.as_bytes(), || sample(src, Some(res), "input ends with several expectations pending"));
+        }
+    }
+}
+
+/// Cut a source at random places (optionally leaving a lone quote behind) and check the
+/// end-of-input row on each prefix.
+fn c14_truncations(st: &mut Stats, s: &str, r: &mut Rng) {
+    if s.is_empty() {
+        return;
+    }
+    for _ in 0..3 {
+        let mut cut = r.range(1, s.len());
+        while !s.is_char_boundary(cut) {
+            cut -= 1;
+        }
+        let mut t = s[..cut].to_string();
+        match r.below(8) {
+            0 => t.push('"'),
+            1 => t.push('\''),
+            2 => t.push('('),
+            _ => {}
+        }
+        st.src(Src::GrammarTrunc);
+        c14_eoi_case(st, &t);
     }
 }
 
@@ -882,7 +937,8 @@ pub fn c14_prog(st: &mut Stats, p: &grammar::Prog, r: &mut Rng) {
                 let Some(res) = ex.result() else { continue };
                 let v = View::new(&src, res);
                 st.observe_view(&v);
-                let fs = wellformed::check_c14(d, at, &v);
+                let mut fs = wellformed::check_c14(d, at, &v);
+                fs.extend(wellformed::check_eoi_recovery(&v, &ex));
                 record(st, &fs, &[&src]);
                 st.count(&format!("deleted_{}_{:?}", d.construct, d.token), 1);
                 if d.padded {
@@ -924,7 +980,8 @@ pub fn c14_prog(st: &mut Stats, p: &grammar::Prog, r: &mut Rng) {
             if let Some(res) = ex.result() {
                 let v = View::new(src, res);
                 st.observe_view(&v);
-                let fs = wellformed::check_c14_eof(&v);
+                let mut fs = wellformed::check_c14_eof(&v);
+                fs.extend(wellformed::check_eoi_recovery(&v, &ex));
                 record(st, &fs, &[src]);
                 st.count("eof_inside_call_cases", 1);
                 if ex.report.end_of_input.as_ref().is_some_and(|e| e.modes.len() >= 3) {
